@@ -1,6 +1,6 @@
 """Per-property configuration of the checks (parts, bounds, non-triviality rules, evidence text)."""
 
-HARNESS_SOURCES = ["main.cc", "engine_poly.cc", "engine_tet.cc", "engine_hex.cc", "mon_hist.cc", "mon_c12.cc", "mon_iter.cc"]
+HARNESS_SOURCES = ["main.cc", "engine_poly.cc", "engine_tet.cc", "engine_hex.cc", "mon_hist.cc", "mon_c12.cc", "mon_iter.cc", "mon_query.cc"]
 
 def cnt(js, k):
     return js.get("cnt", {}).get(k, 0)
@@ -84,6 +84,20 @@ PROPS = {
   "min_counts": {"circulators": 200000, "circulators.empty-centre": 1000, "entity-iterators": 5000, "circ.back-steps": 1000000},
   "assumptions": COMMON_ASSUME + ["valid() is not judged after an iterator left the valid range and came back (handle and lap are)", "faces of valence 0 and centres outside the mesh are outside the domain"],
  },
+ "C08": {
+  "level": "exploration",
+  "technique": "algebraic identities of the handle conversions evaluated for index ranges under UBSan (thorough: every index in [0,2^30)); mirror identities of opposite half-entities on every edge/face after every step of histories",
+  "parts": [
+    {"name": "conv", "flavor": "asan-dbg", "monitor": "C08", "sub": "conv", "cases": {"quick": 64, "thorough": 256}},
+    {"name": "mesh", "flavor": "asan-dbg", "monitor": "C08", "sub": "mesh", "cases": {"quick": 600, "thorough": 10000}},
+  ],
+  "exhaustive": {"quick": False, "thorough": False},
+  "nontrivial": {"fn": lambda js: cnt(js, "indices") >= 1000 or (cnt(js, "mirror.faces") >= 50 and cnt(js, "mirror.edges") >= 50),
+                 "text": "part conv: each case evaluates ~25 conversion identities (static and member forms of halfedge_handle/halfface_handle/edge_handle/face_handle/opposite/subidx) on a range of indices; quick = blocks covering [0,2^20), a strided sweep to 2^30 and +-2048 around every power of two; thorough = EVERY index in [0,2^30) in 256 chunks of 2^22 (that sub-space is enumerated completely). part mesh: histories as C01; after every step every live edge/face is checked for the mirror identities (opposite halfedge swaps ends, opposite halfface = reversed opposites, closed loops, the two sides' circulators run the same cycle in opposite directions, next/prev inverse). non-trivial = >=1000 indices or >=50 faces and edges checked; distinct by range / operation digest"},
+  "floor": {"quick": 200, "thorough": 3000},
+  "min_counts": {"indices": 4000000, "mirror.faces": 50000, "mirror.valence.1": 20, "mirror.valence.2": 20, "mirror.valence.7": 20},
+  "assumptions": COMMON_ASSUME + ["UBSan reports signed overflow/shift errors in the conversion arithmetic; indices above 2^30 are outside the quantifier"],
+ },
  "C09": {
   "level": "exploration",
   "technique": "brute-force fan classifier and successor relation around every edge compared with halfedge_halffaces order; in-cell adjacency vs unique-candidate scan; after every step of histories",
@@ -95,6 +109,31 @@ PROPS = {
   "floor": {"quick": 200, "thorough": 4000},
   "min_counts": {"fan.interior": 200, "fan.boundary": 2000, "adj.queries": 100000},
   "assumptions": COMMON_ASSUME + ["edges whose faces/cells do not form a single fan, and cells with 0 or >=2 adjacency candidates, are not judged (unspecified by the property)"],
+ },
+ "C10": {
+  "level": "exploration",
+  "technique": "three-valued brute-force oracle for every lookup function over all vertex pairs / triples / face tuples (rotated, reversed, damaged) / halfedge pairs / (cell, tuple) combinations of reached states",
+  "parts": [
+    {"name": "dbg", "flavor": "asan-dbg", "monitor": "C10", "cases": {"quick": 500, "thorough": 8000}},
+  ],
+  "nontrivial": {"fn": lambda js: cnt(js, "lookup.find_halfedge.hit") >= 10 and cnt(js, "lookup.find_halfface(v).hit") >= 5 and cnt(js, "lookup.find_halfface(he)") >= 50,
+                 "text": "case = history as C01 with all incidences on (every third case without parallel edges so that every lookup is decidable); at several states: find_halfedge on ALL ordered vertex pairs, find_halfface/find_halfface_extensive on every face tuple in every rotation + damaged variants + all ordered triples (<=10 vertices) or 300 sampled, in-cell lookups over all live cells, find_halfface(halfedges) over all halfedge pairs (<=40 halfedges) or 1500 sampled, get_halfface_vertices x3, is_incident over all face/edge pairs, n_vertices_in_cell. must-find / must-be-invalid / either classification by brute force; any returned entity must be live and match. non-trivial = >=10 find_halfedge hits, >=5 find_halfface hits, >=50 halfedge-pair probes"},
+  "floor": {"quick": 200, "thorough": 3000},
+  "min_counts": {"lookup.find_halfedge": 100000, "lookup.find_halfface(v)": 100000, "lookup.find_halfface_in_cell.hit": 2000, "lookup.find_halfedge_in_cell.hit": 2000, "lookup.find_halfface_extensive.hit": 2000},
+  "assumptions": COMMON_ASSUME + ["arguments outside the documented domain (fewer than three vertices, deleted handles, start vertex not on the halfface) are not generated", "cells containing parallel edges are skipped for the in-cell lookups"],
+ },
+ "C11": {
+  "level": "exploration",
+  "technique": "acceptance predicate computed by brute force (closed loop / closed surface matching) for crafted argument lists; full before/after snapshot equality for rejected and deduplicated handle-based calls; accepted calls: exactly one new entity, rest unchanged, C01 oracle",
+  "parts": [
+    {"name": "dbg", "flavor": "asan-dbg", "monitor": "C11", "cases": {"quick": 1000, "thorough": 15000}},
+    {"name": "rel", "flavor": "asan-rel", "monitor": "C11", "cases": {"quick": 300, "thorough": 4000}},
+  ],
+  "nontrivial": {"fn": lambda js: cnt(js, "rejected-calls") >= 5 and cnt(js, "accepted-calls") >= 5,
+                 "text": "case = reached state (poly/tet/hex, deferred-deleted look-alikes present, with/without vertex incidences, live properties) followed by 40 crafted calls: add_edge(no duplicates) on random pairs; add_face(check) with empty / single / open / closed / rotated / repeated / reversed lists; add_cell(check) with empty lists, fresh closed surfaces, missing / doubled / flipped / extra faces, permutations, two disjoint closed surfaces, faces of existing cells. Rejected or deduplicated calls must leave the complete snapshot (definitions, flags, counts, modes, raw caches, tags, properties, positions) unchanged; accepted ones append exactly one entity with the given definition. non-trivial = >=5 rejected and >=5 accepted calls; distinct by operation digest"},
+  "floor": {"quick": 300, "thorough": 4000},
+  "min_counts": {"rejected-calls": 10000, "accepted-calls": 10000},
+  "assumptions": COMMON_ASSUME + ["the vertex-based convenience overloads are not held to the no-op rule (as in the statement)", "lists naming halffaces that already belong to a live cell are not submitted (no halfface in two live cells)"],
  },
  "C12": {
   "level": "exploration",
@@ -137,8 +176,14 @@ LEVEL_TEXT = {
          "note": "trusted: the model's cascade (faces bounding no cell, then edges without face, then vertices without edge)"},
  "C05": {"text": "Runtime exploration: every iterator/circulator kind is exercised on every live centre of thousands of reached states and compared with brute-force incident sets and with its own other protocols (the oracle needs no expected numbers).",
          "note": "trusted: Scan; iterator copies compare with operator== of the library (also cross-checked by handle+lap)"},
+ "C08": {"text": "Conversion identities: quick samples ranges, thorough enumerates every index in [0,2^30) (complete for that sub-space) under UBSan; mirror identities are explored on every edge/face of thousands of reached states.",
+         "note": "trusted: UBSan for the arithmetic; Scan for the stored definitions"},
  "C09": {"text": "Runtime exploration: the fan structure around every edge is recomputed by brute force after every step and the reported order is checked against the successor relation; adjacency in cells against the unique-candidate scan.",
          "note": "trusted: the fan classifier (only edges it accepts are judged); scan accessors"},
+ "C10": {"text": "Runtime exploration: every lookup is compared with a brute-force search classified must-find / must-be-invalid / either; argument spaces are enumerated completely on small states and sampled on larger ones.",
+         "note": "trusted: the classification rules of DESIGN.md section 3.4 (parallel edges make some answers unspecified; misses caused by them are reported under their own key)"},
+ "C11": {"text": "Runtime exploration: acceptance is predicted by brute force for crafted valid and invalid argument lists; rejection/deduplication must be a no-op on the full observable snapshot.",
+         "note": "trusted: snapshot completeness (definitions, flags, counts, modes, raw caches, tag and user property arrays, persistent properties, positions)"},
  "C12": {"text": "Runtime exploration with a differential twin: an all-incidences mesh and a partially-disabled, toggled mesh run the same call stream; equality handle for handle after every step, plus C01/C09 oracles on the toggled mesh and invalid-circulator probes.",
          "note": "trusted: Twin::apply replays exactly the recorded API calls; the twin itself is the library (a defect common to both paths is caught by C01/C02 instead)"},
  "C17": {"text": "Runtime exploration: every swap is observed at handle level (tags, deletion flags, all property arrays side by side) before/after, repeated (identity) and with equal arguments (no-op), combined with the model and incidence oracles.",
